@@ -42,7 +42,7 @@ def cal_thread(rng, c, nbase):
         pos = sorted(rng.randint(3, len(L)) for _ in range(k))
         for j, p_ in enumerate(pos):
             L.insert(p_ + j, merr[j])
-    bad = c11.sweep_cases(rng, '/tmp')[0][3][2]                          # the invalid vnacal calls of the C11 sweep
+    bad = next(g for g in c11.sweep_cases(rng, '/tmp')[0] if g[0] == 'vnacal')[2]    # the invalid vnacal calls of the C11 sweep
     for (pl, classes, silent) in rng.sample(bad, 12):
         if ' loadstr ' in pl or ' load ' in pl or ' save ' in pl:
             continue
